@@ -108,7 +108,6 @@ void File::close() {
     if (m_openMode & std::ios_base::in) {
         /* finalize compressedFileThread */
         m_compressedFileThreadRunning = false;
-        m_compressedFile.close();
 
         /* finalize uncompressedFileThread */
         m_uncompressedFileThreadRunning = false;
@@ -124,6 +123,9 @@ void File::close() {
         /* finalize uncompressedFileThread */
         if (m_uncompressedFileThread.joinable())
             m_uncompressedFileThread.join();
+
+        /* close the file only now: the compressedFileThread may have been in the middle of a log container */
+        m_compressedFile.close();
     }
 
     /* write */
